@@ -214,6 +214,78 @@ pub fn oracle_ref(s: &Store, bank: &Bank) -> Result<OracleRef, OracleErr> {
             let tb = band(&twap, &(rf::qu(p.ema_conf) * scale), &mult, cfg.oracle_max_confidence);
             Ok(OracleRef { spot, spot_band: sb, twap, twap_band: tb })
         }
+        OracleSetup::KaminoPythPush | OracleSetup::SolendPythPull | OracleSetup::DriftPythPull => {
+            // Pyth data of the underlying, with price, confidence, EMA price and EMA confidence each
+            // multiplied by the venue's exchange rate (reference restricted to reserves / markets whose
+            // rate is a plain ratio of two stored integers; rate held at 2^-48 resolution, products floored
+            // to the feed's integer units, as the venue adapters document)
+            let a = s.get(&cfg.oracle_keys[0]).ok_or(OracleErr::Missing)?;
+            if a.owner != pyth_solana_receiver_sdk::id() {
+                return Err(OracleErr::WrongOwner);
+            }
+            let disc = <pyth_solana_receiver_sdk::price_update::PriceUpdateV2 as anchor_lang::Discriminator>::DISCRIMINATOR;
+            if a.data.len() < 8 || &a.data[..8] != disc {
+                return Err(OracleErr::BadData);
+            }
+            let p = parse_pyth(&a.data).ok_or(OracleErr::BadData)?;
+            if !p.full {
+                return Err(OracleErr::LowVerification);
+            }
+            if p.publish_time.saturating_add(max_age) < s.now {
+                return Err(OracleErr::Stale);
+            }
+            let v = s.get(&cfg.oracle_keys[1]).ok_or(OracleErr::Missing)?;
+            // (numerator, denominator) of the exchange rate, and freshness of the venue account
+            let (num, den, fresh): (u128, u128, bool) = match cfg.oracle_setup {
+                OracleSetup::KaminoPythPush => {
+                    if v.owner != kamino_mocks::ID || v.data.len() < 8 + std::mem::size_of::<kamino_mocks::state::MinimalReserve>() {
+                        return Err(OracleErr::BadData);
+                    }
+                    let r: kamino_mocks::state::MinimalReserve = bytemuck::pod_read_unaligned(&v.data[8..8 + std::mem::size_of::<kamino_mocks::state::MinimalReserve>()]);
+                    (r.available_amount as u128, r.mint_total_supply as u128, r.slot >= s.slot)
+                }
+                OracleSetup::SolendPythPull => {
+                    // Solend is not an Anchor program: its accounts start with a one-byte version tag
+                    let off = solend_mocks::state::RESERVE_DISCRIMINATOR.len();
+                    if v.owner != solend_mocks::ID || v.data.len() < off + std::mem::size_of::<solend_mocks::state::SolendMinimalReserve>() || v.data[..off] != solend_mocks::state::RESERVE_DISCRIMINATOR {
+                        return Err(OracleErr::BadData);
+                    }
+                    let r: solend_mocks::state::SolendMinimalReserve = bytemuck::pod_read_unaligned(&v.data[off..off + std::mem::size_of::<solend_mocks::state::SolendMinimalReserve>()]);
+                    (r.liquidity_available_amount as u128, r.collateral_mint_total_supply as u128, r.last_update_slot >= s.slot)
+                }
+                _ => {
+                    if v.owner != drift_mocks::ID || v.data.len() < 8 + std::mem::size_of::<drift_mocks::state::MinimalSpotMarket>() {
+                        return Err(OracleErr::BadData);
+                    }
+                    let m: drift_mocks::state::MinimalSpotMarket = bytemuck::pod_read_unaligned(&v.data[8..8 + std::mem::size_of::<drift_mocks::state::MinimalSpotMarket>()]);
+                    (u128::from_le_bytes(m.cumulative_deposit_interest), 10_000_000_000u128, m.last_interest_ts as i64 >= s.now)
+                }
+            };
+            if !fresh {
+                return Err(OracleErr::Stale);
+            }
+            if den == 0 {
+                return Err(OracleErr::BadData);
+            }
+            let drift = cfg.oracle_setup == OracleSetup::DriftPythPull;
+            let adj = |raw: i128| -> i128 {
+                if drift {
+                    // integer arithmetic: raw x cumulative interest / 10^10, floored
+                    (raw * num as i128).div_euclid(den as i128)
+                } else {
+                    // rate at 2^-48 resolution, product floored
+                    let rate48 = ((num << 48) / den) as i128;
+                    (raw * rate48) >> 48
+                }
+            };
+            let scale = pow10_signed(p.expo);
+            let mult = q_const(CONF_INTERVAL_MULTIPLE);
+            let spot = rf::qi(adj(p.price as i128)) * scale.clone();
+            let twap = rf::qi(adj(p.ema_price as i128)) * scale.clone();
+            let sb = band(&spot, &(rf::qi(adj(p.conf as i128)) * scale.clone()), &mult, cfg.oracle_max_confidence);
+            let tb = band(&twap, &(rf::qi(adj(p.ema_conf as i128)) * scale), &mult, cfg.oracle_max_confidence);
+            Ok(OracleRef { spot, spot_band: sb, twap, twap_band: tb })
+        }
         OracleSetup::None => Err(OracleErr::NotSetup),
         _ => Err(OracleErr::Unsupported),
     }
